@@ -200,7 +200,7 @@ theorem others_unaffected {s : State} (hq : Quiet s) (m n : Nat) (p : Prog)
 /-- module 0: on message 1 send 7 to module 1 with delay 4, spawn a task (sleep 2), ask for restart
     in 5 ns; one start stage that logs; module 1 logs what it gets -/
 def p0 : Prog :=
-  { onMsg := fun id => if id = 1 then [.send 1 4 7, .spawn 3 2 false true, .restartIn 5] else [.log id],
+  { onMsg := fun id => if id = 1 then [.send 1 4 7, .spawn 3 2 false true false, .restartIn 5] else [.log id],
     onStart := fun _ => [.log 100], onEnd := [], onTask := fun _ => [.log 33] }
 def p1 : Prog := { onMsg := fun id => [.log id], onStart := fun _ => [], onEnd := [], onTask := fun _ => [] }
 def cfg0 : Config :=
